@@ -57,9 +57,9 @@ SLOW_MS = 2500
 RUN_TIMEOUT_S = 45
 
 TIERS = {
-    "quick": dict(maxn=4, maxp=2, maxg=2, maxitems=2, flav_per_dag=2, n_req=48, n_proto=96, partial_all=False,
+    "quick": dict(maxn=4, maxp=2, maxg=2, maxitems=2, flav_per_dag=2, n_req=48, n_proto=96, n_sdk=24, partial_all=False,
                   n_argv_oop=24, shapes_depth=1),
-    "thorough": dict(maxn=5, maxp=3, maxg=2, maxitems=3, flav_per_dag=2, n_req=900, n_proto=1400, partial_all=True,
+    "thorough": dict(maxn=5, maxp=3, maxg=2, maxitems=3, flav_per_dag=2, n_req=900, n_proto=1400, n_sdk=400, partial_all=True,
                      n_argv_oop=200, shapes_depth=2),
 }
 
@@ -112,8 +112,9 @@ def trunc(x, n=400):
     return s if len(s) <= n else s[:n] + "..."
 
 
-def wellformed_struct(b):
-    """schema-less: does b start with a well-formed thrift binary struct (fields ... STOP)?"""
+def wellformed_struct(b, why=None):
+    """schema-less: does b start with a well-formed thrift binary struct (fields ... STOP)?
+    why (a list) receives "negative-ttype" when the parse stops at a type byte >= 0x80."""
     sizes = {2: 1, 3: 1, 4: 8, 6: 2, 8: 4, 10: 8}
 
     def val(t, i, depth):
@@ -155,6 +156,8 @@ def wellformed_struct(b):
                 i = val(kt, i, depth + 1)
                 i = val(vt, i, depth + 1)
             return i
+        if t >= 0x80 and why is not None:
+            why.append("negative-ttype")
         raise ValueError
 
     def struct(i, depth):
@@ -267,9 +270,12 @@ def make_programs(ctx, t, dags, shapes, rng):
     progs = []
     for d in dags:
         n = d["n"]
-        vecs = [["full"] * n]
-        for _ in range(t["flav_per_dag"] - 1):
-            vecs.append([rng.choice(P.FLAVOURS) for _ in range(n)])
+        if n >= 5:      # thousands of DAGs: one vector each, all-full for every other one
+            vecs = [["full"] * n] if len(progs) % 2 == 0 else [[rng.choice(P.FLAVOURS) for _ in range(n)]]
+        else:
+            vecs = [["full"] * n]
+            for _ in range(t["flav_per_dag"] - 1):
+                vecs.append([rng.choice(P.FLAVOURS) for _ in range(n)])
         if n <= 2:
             vecs += [[a] + [b] * (n - 1) for a in P.FLAVOURS for b in P.FLAVOURS]
         seen = set()
@@ -518,11 +524,16 @@ def oop_run(ctx, bins, c):
             json.dump(script, fh)
         parts = ([",".join(ctl)] + ([pl["payload"]] if pl["payload"] else [])) if pl.get("ctl_pos", "first") == "first" \
             else (([pl["payload"]] if pl["payload"] else []) + [",".join(ctl)])
-        argv += ["-p", "verifrec=%s:%s" % (getattr(bins, pl["bin"]), ",".join(parts))]
+        if pl.get("byname"):
+            # `-p name`: thriftgo looks for thrift-gen-<name> on PATH
+            argv += ["-p", "%s:%s" % (os.path.basename(getattr(bins, pl["bin"]))[len("thrift-gen-"):], ",".join(parts))]
+        else:
+            argv += ["-p", "verifrec=%s:%s" % (getattr(bins, pl["bin"]), ",".join(parts))]
         plug.append(dict(ctl=ctl, first=pl.get("ctl_pos", "first") == "first"))
     argv.append(idlarg)
     env = dict(ctx.env)
     env["VERIFREC_DIR"] = d
+    env["PATH"] = os.path.dirname(bins.rec0) + os.pathsep + env.get("PATH", "")
     env.pop("THRIFTGO_PLUGIN_COMPRESS_INCLUDE", None)
     env.pop("THRIFTGO_DEBUG", None)
     if c.get("compress_env") is not None:
@@ -624,7 +635,10 @@ def check_request(c, obs, version, ref):
         k = seen[j]
         seen[j] += 1
         if k >= len(obs["dumps"][j]):
-            probs.append(("plugin-not-run", "plugin %d target %d: no request decoded" % (j, ti)))
+            if "decode_error" in obs:
+                probs.append(("request-undecodable", obs["decode_error"][:300]))
+            else:
+                probs.append(("plugin-not-run", "plugin %d target %d: no request decoded" % (j, ti)))
             continue
         d = obs["dumps"][j][k]
         if d.get("err") or "head" not in d:
@@ -678,7 +692,7 @@ def stage_requests(ctx, bins, c11req, progs, refs, params, t, version, only=None
             for j in range(nplug):
                 q = pick(rng, pp)
                 plugins.append({"bin": binname, "payload": q["text"], "allowed": q["allowed"],
-                                "ctl_pos": "first" if (k + j) % 2 == 0 else "last",
+                                "ctl_pos": "first" if (k + j) % 2 == 0 else "last", "byname": k % 7 == 2,
                                 "script": {"mode": "ok", "items": [
                                     {"k": "File", "name": "pl%d/own.txt" % j, "content": "own %d\n" % j}]}})
             cases.append({"id": "r%d" % k, "stage": "request", "pid": p["pid"], "prog": p["prog"],
@@ -736,9 +750,9 @@ def stage_requests(ctx, bins, c11req, progs, refs, params, t, version, only=None
                 probs = []
             else:
                 probs, obs = probs2, obs2
-        ctx.count(1, "request: %s comp=%s trailer=%s targets=%d plugins=%d rec=%s out=%s cwd=%s" % (
+        ctx.count(1, "request: %s comp=%s trailer=%s targets=%d plugins=%d rec=%s out=%s cwd=%s byname=%s" % (
             c.get("cls"), c["compress_env"], c.get("_trailer"), len(c["targets"]), len(c["plugins"]),
-            bool(c.get("rec")), c.get("out_mode"), c.get("cwd_mode")))
+            bool(c.get("rec")), c.get("out_mode"), c.get("cwd_mode"), bool(c["plugins"][0].get("byname"))))
         if probs:
             nviol += 1
             kinds = sorted({k for k, _ in probs})
@@ -821,7 +835,8 @@ def proto_trace(c, obs, version, ref):
     tr = [{"ev": "Case", "cs": cs}]
     dumped = bool(obs["dumps"] and obs["dumps"][0])
     same = dumped and not check_request(c, obs, version, ref)
-    tr.append({"ev": "Spawn", "same": bool(same), "dumped": dumped, "started": bool(obs["started"])})
+    tr.append({"ev": "Spawn", "same": bool(same), "dumped": dumped, "started": bool(obs["started"]),
+               "undecodable": "decode_error" in obs})
     tr.append({"ev": "Gone", "alive": bool(obs["alive"])})
     proper = cs["beh"] == "Ok" and cs["rerr"] == "" and not c["beyond"]
     if proper:
@@ -857,22 +872,24 @@ def classify_proto(c, tr, at):
     if ev is None:
         return "trace-incomplete"
     if ev["ev"] == "Spawn":
-        return "request-differs" if ev.get("dumped") else "plugin-not-run"
+        return "request-differs" if ev.get("dumped") else (
+            "request-undecodable" if ev.get("undecodable") else "plugin-not-run")
     if ev["ev"] == "Gone":
         return "plugin-alive-after-thriftgo" if ev["alive"] else "plugin-not-run"
     if ev["ev"] == "End":
         return "good-response-rejected" if ev["err"] else "output-not-as-specified"
     if ev["ev"] == "Exit":
+        good = cs["beh"] == "Ok" and not cs["rerr"] and not c["beyond"]
         if ev["rc"] == "timeout":
             return "thriftgo-did-not-return"
         if ev["rc"] == "zero":
-            return "exit-0-despite-%s" % ("response-error" if cs["beh"] == "Ok" and cs["rerr"] else
-                                          "timeout" if c["beyond"] else cs["beh"])
+            if not good:
+                return "exit-0-despite-%s" % ("response-error" if cs["beh"] == "Ok" and cs["rerr"] else
+                                              "timeout" if c["beyond"] else cs["beh"])
+            return "warnings-not-shown" if not ev["warned"] else "exit-0-not-allowed"
         if c["beyond"] and not ev["intime"]:
             return "not-within-time-limit"
-        if not ev["warned"]:
-            return "warnings-not-shown"
-        return "nonzero-exit-for-good-response"
+        return "nonzero-exit-for-good-response" if good else "nonzero-exit-not-allowed"
     return "rejected-at-" + ev["ev"]
 
 
@@ -898,7 +915,88 @@ def validate_proto(ctx, cases, traces):
     return rej, reach
 
 
-def stage_proto(ctx, bins, c11req, proto, t, version, only=None):
+def sdk_traces(ctx, c11req, proto, t, version, only=None):
+    """SDK plugins (plugin.SDKPlugin, run inside the compiler by sdk.InvokeThriftgo): the Ok cases of the protocol
+    universe, in-process.  Returns [(case, trace)] for validation against Plugin.tla together with the process runs."""
+    rng = random.Random(ctx.seed * 31337 + 3)
+    if only is not None:
+        chosen = [c["cs"] for c in only]
+    else:
+        pool = [c for c in proto if c["cs"]["beh"] == "Ok" and c["cs"]["dur"] == "fast" and c["cs"]["limit"] == 0]
+        strata = {}
+        for c in pool:
+            cs = c["cs"]
+            strata.setdefault((bool(cs["rerr"]), len(cs["warns"]), tuple(i["k"] for i in cs["items"]), c["rc"],
+                               c["renamed"], c["patched"]), []).append(cs)
+        keys = sorted(strata, key=str)
+        rng.shuffle(keys)
+        chosen = [pick(rng, strata[k]) for k in keys[:t["n_sdk"]]]
+        if not any(cs["warns"] and not cs["rerr"] for cs in chosen):
+            raise vlib.MachineryError("vacuous SDK sample: no successful case with warnings")
+    p = materialise(ctx, dict(pid="sdk", prog=proto_program(), comments=[]))
+    cases = []
+    for k, cs in enumerate(chosen):
+        outdir = ctx.mkdir("sdk", str(k), "out")
+        items = []
+        for it in cs["items"]:
+            if it["k"] == "File":
+                items.append({"k": "File", "name": "%s/pl/%s.txt" % (outdir, it["name"]), "content": render_segs(it["content"])})
+            elif it["k"] == "UPatch":
+                items.append({"k": "UPatch", "pt": it["pt"], "text": it["text"]})
+            else:
+                items.append({"k": "NPatch", "name": "%s/pl/%s.txt" % (outdir, it["name"]), "pt": it["pt"], "text": it["text"]})
+        params = [["k1=v", "k2="], [], ["a=b=c"]][k % 3]
+        cases.append({"id": k, "kind": "sdk", "cwd": os.path.join(p["root"], "idl"), "idl": p["main"], "includes": [],
+                      "argv": ["-g", "go:no_fmt", "-o", outdir, p["main"]],
+                      "sdk": {"items": items, "warnings": cs["warns"], "error": cs["rerr"], "params": params},
+                      "_cs": cs, "_out": outdir, "_params": params})
+    obs = run_c11req(ctx, c11req, [{k: v for k, v in c.items() if not k.startswith("_")} for c in cases], "sdk",
+                     nproc=min(4, max(1, len(cases) // 8)))
+    out = []
+    for c, o in zip(cases, obs):
+        cs = c["_cs"]
+        if o.get("ref_err"):
+            raise vlib.MachineryError("front end rejects the protocol program: " + o["ref_err"][:300])
+        ok = not o["err"] and not o["panic"]
+        dumped = len(o["dumps"]) == 1
+        same = False
+        if dumped:
+            h = o["dumps"][0]["head"]
+            same = (h["Version"] == version and h["Language"] == "go" and h["OutputPath"] == c["_out"]
+                    and h["Recursive"] is False and params_ok(h["GeneratorParameters"], [["no_fmt", "no_fmt="]])
+                    and h["PluginParameters"] == c["_params"] and o["dumps"][0]["ast_hash"] == o["ref_ast"])
+        tr = [{"ev": "Case", "cs": cs}, {"ev": "Spawn", "same": bool(same), "dumped": dumped, "started": dumped},
+              {"ev": "Gone", "alive": False}]
+        if not cs["rerr"]:
+            tr.append({"ev": "Begin"})
+            for it in cs["items"]:
+                e = dict(it, ev=it["k"])
+                e.pop("k")
+                tr.append(e)
+            resp = []
+            pl = os.path.join(c["_out"], "pl")
+            if ok and os.path.isdir(pl):
+                for fn in sorted(os.listdir(pl)):
+                    with open(os.path.join(pl, fn), encoding="utf-8", errors="replace") as fh:
+                        resp.append({"name": fn[:-4] if fn.endswith(".txt") else fn, "content": fh.read()})
+            tr.append({"ev": "End", "err": not ok, "resp": resp})
+        warned, pos = True, 0
+        for w in cs["warns"]:
+            i = o["stderr"].find("[WARN] " + w, pos)
+            if i < 0:
+                warned = False
+                break
+            pos = i + 1
+        tr.append({"ev": "Exit", "rc": "zero" if ok else "nonzero", "intime": True, "warned": warned, "elapsed_ms": 0})
+        shutil.rmtree(os.path.dirname(c["_out"]), ignore_errors=True)
+        out.append(({"id": "s%d" % c["id"], "stage": "sdk", "cs": cs, "beyond": False},
+                    tr, {"err": o["err"], "panic": o["panic"][:600], "stderr": o["stderr"][-600:], "dumps": o["dumps"]}))
+        ctx.count(1, "sdk: rerr=%s warns=%d items=%s" % (bool(cs["rerr"]), len(cs["warns"]),
+                                                          "+".join(i["k"] for i in cs["items"]) or "-"))
+    return out
+
+
+def stage_proto(ctx, bins, c11req, proto, t, version, only=None, sdk=()):
     rng = random.Random(ctx.seed * 104729 + 5)
     if only is not None:
         cases = only
@@ -974,12 +1072,24 @@ def stage_proto(ctx, bins, c11req, proto, t, version, only=None):
                 raise vlib.MachineryError("front end rejects the protocol program: " + o["err"][:300])
             ref_cache["ref"] = o["orig"]
         return ref_cache["ref"]
-    if not cases:
+    if not cases and not sdk:
         return 0
-    ref_of(cases[0])
-    obs_all = parallel(lambda c: oop_run(ctx, bins, c), cases, bins.workers)
+    obs_all = []
+    if cases:
+        ref_of(cases[0])
+        obs_all = parallel(lambda c: oop_run(ctx, bins, c), cases, bins.workers)
     traces = [proto_trace(c, o, version, ref_of(c)) for c, o in zip(cases, obs_all)]
-    rej, reach = validate_proto(ctx, cases, traces)
+    nproc = len(cases)
+    rej, reach = validate_proto(ctx, cases, traces + [tr for _, tr, _ in sdk])
+    for i in [i for i in rej if i >= nproc]:      # in-process, deterministic: no re-execution
+        c, tr, o = sdk[i - nproc]
+        at = reach.get(i, 0)
+        kind = classify_proto(c, tr, at)
+        ctx.violation({"check": "C11.sdk", "kind": kind}, c,
+                      {"trace": tr, "matched_events": max(at - 1, 0),
+                       "rejected_event": tr[at - 1] if 0 < at <= len(tr) else None, "observation": o},
+                      "a behaviour of spec/Plugin/Plugin.tla", "SDK plugin (in-process): " + kind)
+    rej = [i for i in rej if i < nproc]
     if rej:
         # once more, to exclude flakiness (load): only traces rejected twice count
         again = [cases[i] for i in rej]
@@ -1012,7 +1122,12 @@ def stage_proto(ctx, bins, c11req, proto, t, version, only=None):
         c = cases[i]
         kind = classify_proto(c, tr, at)
         cc = {k: v for k, v in c.items() if not k.startswith("_")}
-        ctx.violation({"check": "C11.proto", "kind": kind, "beh": c["cs"]["beh"]}, cc,
+        cls = {"check": "C11.proto", "kind": kind, "beh": c["cs"]["beh"]}
+        if c["cs"]["beh"] == "Garbage":
+            why = []
+            wellformed_struct(bytes.fromhex(c["variant"].get("garbage_hex", "")), why)
+            cls["garbage"] = why[0] if why else "other"
+        ctx.violation(cls, cc,
                       {"trace": tr, "matched_events": max(at - 1, 0),
                        "rejected_event": tr[at - 1] if 0 < at <= len(tr) else None,
                        "rc": obs["rc"], "stderr": obs["stderr"][-800:], "stdout": obs["stdout"][-600:],
@@ -1112,6 +1227,27 @@ def stage_backend_patches(ctx, bins, t, only=None):
     return n
 
 
+# ------------------------------------------------------------------------------------------- growth: orphaned child
+def stage_childhang(ctx, bins):
+    """A plugin that exceeds the limit and has started a child which keeps its stdout open.  The statement only
+    demands that the plugin is killed and thriftgo fails; how long thriftgo then waits for the pipe is recorded."""
+    c = {"id": "childhang", "stage": "childhang", "prog": proto_program(), "comments": [],
+         "targets": [{"lang": "go", "text": "no_fmt", "allowed": []}],
+         "plugins": [{"bin": "rec0", "payload": "", "allowed": [], "ctl_pos": "first",
+                      "script": {"mode": "childhang", "child_ms": 4000}}],
+         "compress_env": None, "limit": "300ms", "timeout": 40}
+    obs = oop_run(ctx, bins, c)
+    ctx.count(1, "childhang: limit=300ms child=4000ms")
+    if obs["rc"] == 0 or obs["rc"] == "timeout" or obs["alive"]:
+        ctx.violation({"check": "C11.proto", "kind": "orphan-child-case", "beh": "Hang"}, c,
+                      {"rc": obs["rc"], "alive": obs["alive"], "elapsed": obs["elapsed"], "stderr": obs["stderr"][-500:]},
+                      "plugin killed, thriftgo exits != 0", "plugin with a child that holds stdout, over the limit")
+    elif obs["elapsed"] > 0.3 + 3.0:
+        ctx.notes.append("a killed plugin that left a child holding its stdout keeps thriftgo waiting for the child: "
+                         "%.1f s with --plugin-time-limit 300ms and a 4 s child (exec.Cmd without WaitDelay); outside "
+                         "the statement, recorded only" % obs["elapsed"])
+
+
 # ------------------------------------------------------------------------------------------- main
 def setup(ctx):
     bins = Bins()
@@ -1139,6 +1275,8 @@ def run(ctx, args):
             stage_requests(ctx, bins, c11req, [], {}, [], t, version, only=[c])
         elif st == "proto":
             stage_proto(ctx, bins, c11req, [], t, version, only=[c])
+        elif st == "sdk":
+            stage_proto(ctx, bins, c11req, [], t, version, only=[], sdk=sdk_traces(ctx, c11req, [], t, version, only=[c]))
         elif st == "backend":
             stage_backend_patches(ctx, bins, t, only=[c])
         elif st == "codec":
@@ -1166,7 +1304,10 @@ def run(ctx, args):
     vlib.log("backend patch stage done at %.0fs" % (time.time() - ctx.t0))
     stage_requests(ctx, bins, c11req, progs, refs, params, t, version)
     vlib.log("request stage done at %.0fs" % (time.time() - ctx.t0))
-    stage_proto(ctx, bins, c11req, proto, t, version)
+    sdk = sdk_traces(ctx, c11req, proto, t, version)
+    stage_proto(ctx, bins, c11req, proto, t, version, sdk=sdk)
+    if ctx.tier == "thorough":
+        stage_childhang(ctx, bins)
     ctx.exhaustive = False
     return ctx.finish(
         rule="TLC: all include DAGs with <= %d files (ordered includes, every file reachable), all option lists of "
